@@ -482,6 +482,7 @@ RunResult Controller::run(const RunOptions& opts) {
     // Real-blocked threads (join etc.) may become runnable by themselves; wait briefly for them.
     if (cands.empty()) {
       bool anyBlocked = false;
+      bool recheck = false;
       {
         std::lock_guard<std::mutex> lk(I.regMu);
         for (auto& tp : I.threads)
@@ -514,6 +515,34 @@ RunResult Controller::run(const RunOptions& opts) {
           sched_yield();
         }
         if (progressed)
+          continue;
+      } else {
+        // A thread may have left a real blocking region (ST_BLOCKED -> ST_POINT) between the
+        // candidate snapshot above and the scan for blocked threads: look again before declaring
+        // a deadlock.  (Nobody was blocked at the scan, so this second look is stable.)
+        {
+          std::lock_guard<std::mutex> lk(I.regMu);
+          for (auto& tp : I.threads) {
+            int st = tp->st.load(std::memory_order_acquire);
+            if (st == ST_POINT && (!tp->gatePred))
+              recheck = true;
+            if (st == ST_RUNNING || st == ST_NEW || st == ST_BLOCKED)
+              recheck = true;
+          }
+        }
+        if (!recheck) {
+          // gates: evaluate outside the lock
+          std::vector<LThread*> snap;
+          {
+            std::lock_guard<std::mutex> lk(I.regMu);
+            for (auto& tp : I.threads)
+              snap.push_back(tp.get());
+          }
+          for (LThread* t : snap)
+            if (t->st.load(std::memory_order_acquire) == ST_POINT && t->gatePred && t->gatePred())
+              recheck = true;
+        }
+        if (recheck)
           continue;
       }
       res.deadlock = true;
